@@ -329,6 +329,37 @@ def deep_chain(n, limit, kind="chain"):
     return err, ok
 
 
+def after_failure_case(protocol):
+    """a dumps() that raises half-way (an attribute that cannot be pickled: a generator) followed by an ordinary
+    dumps() of a small graph; returns (first_failed, err, ok)"""
+    from edgegraph.structure import Vertex, Universe
+    from edgegraph.builder import explicit
+    from edgegraph.output import nrpickler
+    vs0 = [Vertex(attributes={"i": i}) for i in range(3)]
+    explicit.link_directed(vs0[0], vs0[1])
+    vs0[2].gen = (x for x in ())
+    explicit.link_directed(vs0[1], vs0[2])
+    try:
+        nrpickler.dumps(vs0[0], protocol=protocol)
+        first_failed = False
+    except Exception:           # noqa: BLE001
+        first_failed = True
+    vs = [Vertex(attributes={"i": i}) for i in range(4)]
+    u = Universe(vertices=vs)
+    for a, b in zip(vs, vs[1:] + vs[:1]):
+        explicit.link_directed(a, b)
+    err, ok = "", False
+    try:
+        u2 = pickle.loads(nrpickler.dumps(u, protocol=protocol))
+        vs2 = u2.vertices
+        ok = ([v.i for v in vs2] == [0, 1, 2, 3] and all(len(v.links) == 2 for v in vs2)
+              and all(lk.v1.i == ol.v1.i and lk.v2.i == ol.v2.i for v, o in zip(vs2, vs) for lk, ol in zip(v.links, o.links))
+              and all(v.universes[0] is u2 for v in vs2))
+    except Exception as exc:    # noqa: BLE001
+        err = type(exc).__name__
+    return first_failed, err, ok
+
+
 def recursive_closure_case():
     """vertex -> attribute -> function f; f's closure -> registry; registry -> f again.  dill pickles this through its
     recursive-cell protocol; returns the exception class nrpickler raises, or '' if the round trip works"""
